@@ -11,7 +11,7 @@ RECURSIVE RadAt(_, _, _)
 RadAt(P, vs, i) == IF i = 0 THEN 2 ELSE IF vs[i + 1] = <<0, 0, 0>> THEN RadAt(P, vs, Par(P, i)) ELSE 1 + ((i * 2 + RadAt(P, vs, Par(P, i))) % 4)
 Shapes == UNION { SortedTopos(n) : n \in 2 .. MaxN }
 Trees == { t \in UNION { { [P |-> P, pos |-> PlaceAll(P, vs), rad |-> [k \in 1 .. Len(P) |-> RadAt(P, vs, k - 1)]] : vs \in [1 .. Len(P) -> Vecs] } : P \in Shapes } :
-             CriticalsDistinct(t.P, t.pos) }
+             CriticalsOK(t.P, t.pos) }
 Spacings == << <<1, 2>>, <<1, 1>>, <<3, 2>>, <<2, 1>>, <<10, 1>>, <<3, 4>> >>
 TreeSeq == SetToSeq(Trees)
 TreeCases == [j \in 1 .. Len(TreeSeq) |-> [cid |-> j, kind |-> "tree", sp |-> Spacings[(j % 6) + 1], adjust |-> (j % 5 # 0), rtype |-> (j % 4) + 1, win |-> 1 + (j % 6),
